@@ -166,6 +166,7 @@ var (
 	// A regexp to extract index parts.
 	reIdxParts = regexp.MustCompile("(?i)ON\\s+[\"`]*(?:\\w+)[\"`]*\\s*\\((.+?)\\)(\\s*WHERE\\s+.+)?$")
 	reIdxDesc  = regexp.MustCompile("(?i)\\s+DESC\\s*$")
+	reIdxAsc   = regexp.MustCompile("(?i)\\s+ASC\\s*$")
 )
 
 func (i *inspect) indexInfo(ctx context.Context, t *schema.Table, idx *schema.Index) error {
@@ -222,6 +223,9 @@ func (i *inspect) indexInfo(ctx context.Context, t *schema.Table, idx *schema.In
 			kx := strings.TrimSpace(x[:j+1])
 			if p.Desc {
 				kx = reIdxDesc.ReplaceAllString(kx, "")
+			} else {
+				// The default direction may be spelled out.
+				kx = reIdxAsc.ReplaceAllString(kx, "")
 			}
 			p.X.(*schema.RawExpr).X = kx
 		}
